@@ -63,12 +63,12 @@ type TraceRec struct {
 
 // Observation is what one simulated run showed.
 type Observation struct {
-	Status  string     `json:"status"` // "exit:N", "signal:NAME", "timeout", "starterr:..."
-	Stdout  []byte     `json:"-"`
-	Stderr  []byte     `json:"-"`
-	Trace   []TraceRec `json:"-"`
-	WallMs  int64      `json:"-"`
-	Fired   []string   `json:"fired,omitempty"` // fault kinds that actually fired, from the trace
+	Status string     `json:"status"` // "exit:N", "signal:NAME", "timeout", "starterr:..."
+	Stdout []byte     `json:"-"`
+	Stderr []byte     `json:"-"`
+	Trace  []TraceRec `json:"-"`
+	WallMs int64      `json:"-"`
+	Fired  []string   `json:"fired,omitempty"` // fault kinds that actually fired, from the trace
 }
 
 func (o *Observation) ExitCode() int {
